@@ -193,7 +193,7 @@ func (P *Program) verifyFunc(fn *ssa.Function, fc *FuncContract, mode Mode) *Fun
 		}
 		sort.Strings(ks)
 		noframe := map[string]bool{}
-		for _, tn := range strings.Split(fc.Opts["noframe"], ",") {
+		for _, tn := range strings.Split(fc.Opts["noframe"]+","+fc.Opts["havoc"], ",") {
 			if tn = strings.TrimSpace(tn); tn != "" {
 				if te, err := parseTypeExpr(tn); err == nil {
 					if t := c.resolveType(te, pkg); t != nil {
